@@ -1,4 +1,5 @@
 import Moclo.Proofs.View
+import Moclo.Proofs.SameRole
 import Moclo.Tables.Kits
 /-!
 # C02 — a plasmid has no origin: typing and assembly are rotation-invariant
@@ -116,6 +117,79 @@ theorem fragment_and_keys_rotr (c : ClassSpec) (w : Word) (k : Nat) (h3 : ThreeG
       simp only [Except.map, Except.ok.injEq, Prod.mk.injEq] at h
       obtain ⟨a, b, t, _⟩ := h
       exact ⟨t, by simp only [Except.map, a, b]⟩
+
+theorem feature_rotr_cites (n k : Nat) (f : Feature) : (f.rotr n k).cites = f.cites := by
+  unfold Feature.rotr; split <;> rfl
+
+/-- rotating a record does not touch citation entries: it dereferences iff the original does -/
+theorem derefRec_rotr_isSome (r : Rec) (k : Int) : (derefRec (r.rotr k)).isSome = (derefRec r).isSome := by
+  unfold Rec.rotr
+  simp only []
+  split
+  · rfl
+  · unfold derefRec
+    simp only [Option.isSome_map]
+    have : ∀ (fs : List Feature) (n k : Nat) (refs : List Nat),
+        ((fs.map (Feature.rotr n k)).mapM (derefFeature refs)).isSome = (fs.mapM (derefFeature refs)).isSome := by
+      intro fs n k refs
+      induction fs with
+      | nil => rfl
+      | cons f fs ih =>
+        simp only [List.map_cons, List.mapM_cons]
+        have hf : (derefFeature refs (f.rotr n k)).isSome = (derefFeature refs f).isSome := by
+          unfold derefFeature
+          simp only [Option.isSome_map, feature_rotr_cites]
+        cases h1 : derefFeature refs (f.rotr n k) <;> cases h2 : derefFeature refs f <;> simp_all
+        cases h3 : (fs.map (Feature.rotr n k)).mapM (derefFeature refs) <;>
+          cases h4 : fs.mapM (derefFeature refs) <;> simp_all
+    exact this _ _ _ _
+
+/-- an input and a rotation of it -/
+structure Rotated (e e' : Ent) : Prop where
+  oid : e'.oid = e.oid
+  spec : e'.spec = e.spec
+  faulty : e'.faulty = e.faulty
+  rot : ∃ k : Int, e'.rcd = e.rcd.rotr k
+  three : ThreeGroups e.spec.pat
+  unique : UniqueStart e.spec.pat e.rcd.seq
+
+/-- a rotated input plays the same role in every assembly -/
+theorem sameRole_of_rotated {e e' : Ent} (h : Rotated e e') : SameRole e e' := by
+  obtain ⟨k, hk⟩ := h.rot
+  have hseq : e'.rcd.seq = rotr e.rcd.seq (k.emod e.rcd.seq.length).toNat := by
+    rw [hk]
+    unfold Rec.rotr
+    simp only []
+    split
+    · rename_i h0; rw [h0, rotr_zero]
+    · rfl
+  obtain ⟨hfrag, hkeys⟩ := fragment_and_keys_rotr e.spec e.rcd.seq (k.emod e.rcd.seq.length).toNat h.three h.unique
+  refine ⟨h.oid, ?_, h.faulty, by rw [hk]; exact derefRec_rotr_isSome _ _, ?_⟩
+  · unfold Ent.gmod
+    rw [h.spec, hseq, h.oid]
+    cases h1 : e.spec.matchSeq (rotr e.rcd.seq (k.emod e.rcd.seq.length).toNat) with
+    | error x =>
+      cases h2 : e.spec.matchSeq e.rcd.seq with
+      | error y => rw [h1, h2] at hkeys; simp only [Except.map, Except.error.injEq] at hkeys; rw [hkeys]; rfl
+      | ok m => rw [h1, h2] at hkeys; simp [Except.map] at hkeys
+    | ok m1 =>
+      cases h2 : e.spec.matchSeq e.rcd.seq with
+      | error y => rw [h1, h2] at hkeys; simp [Except.map] at hkeys
+      | ok m =>
+        rw [h1, h2] at hkeys
+        simp only [Except.map, Except.ok.injEq, Prod.mk.injEq] at hkeys
+        simp only [bind, Except.bind, pure, Except.pure, hkeys.1, hkeys.2]
+  · unfold Ent.fragment
+    rw [h.spec, hseq]; exact hfrag
+
+/-- **rotation invariance of assembly**: if an assembly succeeds, the assembly of any rotations of the vector
+and of the modules (each carrying its structure once) succeeds too, with literally the same product sequence
+and the same unused modules — wherever the origins are -/
+theorem assembly_rotation_invariant {v v' : Ent} {mods mods' : List Ent} {pid pname : Nat} {p : Product}
+    {after : List Rec} (h : assemble v mods pid pname = (.ok p, after)) (hv : Rotated v v')
+    (hm : List.Forall₂ Rotated mods mods') :
+    ∃ p', (assemble v' mods' pid pname).1 = .ok p' ∧ p'.rcd.seq = p.rcd.seq ∧ p'.unused = p.unused :=
+  assemble_sameRole h (sameRole_of_rotated hv) (hm.imp (fun _ _ hr => sameRole_of_rotated hr))
 
 /-- the hypothesis `ThreeGroups` holds for every concrete class of the five kits (as their structures are
 now: kernel-checked on the regenerated table) and for every generic and signature-typed structure -/
